@@ -129,7 +129,8 @@ _EMANY = [b"V%d=%d" % (i, i) for i in range(300)] + [b"NOEQUALS", b"E==x"]
 def call_for(call, ctx, real):
     """call record of the spec -> (kind, path, argv, envp) concrete; `real`: the image will really be replaced."""
     p = {"p_norm": ctx.helper, "p_empty": b"", "p_long": b"/" + b"./" * 1900 + ctx.helper.lstrip(b"/"),
-         "p_vlong": b"/" + b"./" * 3000 + ctx.helper.lstrip(b"/"),      # longer than PATH_MAX: the exec cannot succeed, the record still carries the path "p_8bit": ctx.link8}[call["path"]]
+         # p_vlong is longer than PATH_MAX: the exec cannot succeed, the record still carries the path
+         "p_vlong": b"/" + b"./" * 3000 + ctx.helper.lstrip(b"/"), "p_8bit": ctx.link8}[call["path"]]
     big = 100000 if real else (1 << 20)
     argv = {"a_null": None, "a_empty": [], "a_emptystr": [b""], "a_one": [b"prog"], "a_two": [b"a b", b"\x01\xff x", b""],
             "a_huge": [b"prog", _big(big)], "a_many": _MANY, "a_100k": [b"prog", _big(100000)], "a_bytes": [bytes(range(1, 128)), bytes(range(128, 256)) + b" end"],
